@@ -8,7 +8,11 @@
 //!     reloaded} vk, and mutated proofs are rejected by both;
 //! (d) ParamsKZG: write_custom / read_custom round trip; downsize(k') equals unsafe_setup(k') from
 //!     the same seeded secret; commitments agree;
-//! (e) MidnightVK / MidnightPK wrappers of stdlib relations.
+//! (e) MidnightVK / MidnightPK wrappers of stdlib relations;
+//! (f) a parsing circuit over a LIBRARY of several automata (AutomatonChip from public
+//!     constructors): repeated configuration + synthesis + key generation give the same fixed
+//!     tables and the same verifying key (collections with per-instance hash seeds must not leak
+//!     into the layout).
 
 use std::{collections::BTreeMap, io::Cursor, process::Command};
 
@@ -466,6 +470,171 @@ fn params_checks(rep: &mut Report, kmax: u32) {
     }
 }
 
+/// (f) AutomatonChip over a library of several automata.
+mod chip_library {
+    use ff::Field;
+    use midnight_circuits::{
+        field::{
+            decomposition::{
+                chip::{P2RDecompositionChip, P2RDecompositionConfig},
+                pow2range::Pow2RangeChip,
+            },
+            native::{NB_ARITH_COLS, NB_ARITH_FIXED_COLS},
+            NativeChip, NativeGadget,
+        },
+        instructions::AssignmentInstructions,
+        parsing::{
+            automaton_chip::{AutomatonChip, AutomatonConfig, NB_AUTOMATA_COLS},
+            regex::{Regex, RegexInstructions},
+        },
+        testing_utils::FromScratch,
+        types::{AssignedByte, AssignedNative},
+        ComposableChip,
+    };
+    use midnight_curves::Fq;
+    use midnight_proofs::{
+        circuit::{Layouter, SimpleFloorPlanner, Value},
+        plonk::{keygen_vk_with_k, Advice, Circuit, Column, ConstraintSystem, Error},
+        utils::SerdeFormat,
+    };
+    use mzv::{
+        common::*,
+        engines::{
+            plonk_util::{params_for, CS},
+            ref_eval::{collect, CollectOpts},
+        },
+    };
+    use serde_json::json;
+
+    pub trait Second {
+        type B;
+    }
+    impl<A, B> Second for (A, B) {
+        type B = B;
+    }
+    pub type AutoMap = <<AutomatonChip<usize, Fq> as ComposableChip<Fq>>::SharedResources as Second>::B;
+    type NG = NativeGadget<Fq, P2RDecompositionChip<Fq>, NativeChip<Fq>>;
+
+    #[derive(Clone)]
+    pub struct LibCircuit {
+        pub automata: AutoMap,
+        pub index: usize,
+        pub input: Vec<u8>,
+    }
+
+    impl Circuit<Fq> for LibCircuit {
+        type Config = (P2RDecompositionConfig, AutomatonConfig<usize, Fq>);
+        type FloorPlanner = SimpleFloorPlanner;
+        type Params = AutoMap;
+
+        fn without_witnesses(&self) -> Self {
+            self.clone()
+        }
+        fn params(&self) -> Self::Params {
+            self.automata.clone()
+        }
+        fn configure_with_params(meta: &mut ConstraintSystem<Fq>, params: AutoMap) -> Self::Config {
+            let committed = meta.instance_column();
+            let inst = meta.instance_column();
+            let advice: [Column<Advice>; NB_ARITH_COLS] = core::array::from_fn(|_| meta.advice_column());
+            let fixed: [_; NB_ARITH_FIXED_COLS] = core::array::from_fn(|_| meta.fixed_column());
+            let native_config = NativeChip::<Fq>::configure(meta, &(advice, fixed, [committed, inst]));
+            let pow2 = Pow2RangeChip::<Fq>::configure(meta, &advice[1..=4]);
+            let p2r = P2RDecompositionConfig::new(&native_config, &pow2);
+            let cols: [Column<Advice>; NB_AUTOMATA_COLS] = advice[..NB_AUTOMATA_COLS].try_into().unwrap();
+            let ac = AutomatonChip::<usize, Fq>::configure(meta, &(cols, params));
+            (p2r, ac)
+        }
+        fn configure(_meta: &mut ConstraintSystem<Fq>) -> Self::Config {
+            unreachable!("configured through configure_with_params")
+        }
+        fn synthesize(&self, config: Self::Config, mut layouter: impl Layouter<Fq>) -> Result<(), Error> {
+            let ng = <NG as FromScratch<Fq>>::new_from_scratch(&config.0);
+            let chip = <AutomatonChip<usize, Fq> as ComposableChip<Fq>>::new(&config.1, &ng);
+            let vals: Vec<Value<u8>> = self.input.iter().map(|b| Value::known(*b)).collect();
+            let input: Vec<AssignedByte<Fq>> = ng.assign_many(&mut layouter, &vals)?;
+            let _outs: Vec<AssignedNative<Fq>> = chip.parse(&mut layouter, &self.index, &input)?;
+            ng.load_from_scratch(&mut layouter)?;
+            chip.load(&mut layouter)
+        }
+    }
+
+    pub fn run(ctx: &Ctx, rep: &mut Report) {
+        // a library of five small automata
+        let regexes: Vec<(Regex, &[u8])> = vec![
+            (Regex::word("hello"), b"hello"),
+            (Regex::digit().non_empty_list(), b"2026"),
+            (Regex::word("a").terminated(Regex::lowercase_letter().list()).terminated(Regex::word("z")), b"abcz"),
+            (Regex::word("yes").or(Regex::word("no")), b"no"),
+            (Regex::uppercase_letter().terminated(Regex::digit().repeat(2)), b"Q42"),
+        ];
+        let built = catch_any(|| {
+            let mut m = AutoMap::default();
+            for (i, (r, _)) in regexes.iter().enumerate() {
+                m.insert(i, r.to_automaton());
+            }
+            m
+        });
+        let automata = match built {
+            Ok(m) => m,
+            Err(p) => {
+                rep.inconclusive(&format!("chip library: the automata could not be compiled: {} at {}", p.message, p.location));
+                return;
+            }
+        };
+        let k = 10u32;
+        let reps = ctx.tier.pick(6usize, 16usize);
+        let mut first: Option<(u64, Vec<u8>)> = None;
+        for r in 0..reps {
+            let index = r % regexes.len();
+            // the witness (index and word) does not matter for the fixed tables; keep it fixed so
+            // that the whole synthesis is comparable
+            let circuit = LibCircuit {
+                automata: automata.clone(),
+                index: 0,
+                input: regexes[0].1.to_vec(),
+            };
+            let _ = index;
+            rep.eval();
+            let got = catch_any(|| -> Result<(u64, Vec<u8>), String> {
+                let t = collect::<Fq, _>(k, &circuit, &[vec![], vec![]], CollectOpts::default())?;
+                if !t.violations(2).is_empty() {
+                    return Err(format!("honest parse is unsatisfied: {:?}", t.violations(2)));
+                }
+                let vk = keygen_vk_with_k::<Fq, CS, _>(params_for(k), &circuit, k).map_err(|e| format!("{e:?}"))?;
+                Ok((t.structure_digest(), vk.to_bytes(SerdeFormat::RawBytes)))
+            });
+            match got {
+                Err(p) => {
+                    rep.inconclusive(&format!("chip library: panic {} at {}", p.message, p.location));
+                    return;
+                }
+                Ok(Err(e)) => {
+                    rep.inconclusive(&format!("chip library: {e}"));
+                    return;
+                }
+                Ok(Ok(d)) => {
+                    rep.nontrivial(&("chip-library", r));
+                    match &first {
+                        None => first = Some(d),
+                        Some(f) if *f != d => {
+                            let what = if f.0 != d.0 { "fixed tables / selectors / copies" } else { "verifying-key bytes" };
+                            rep.violation(
+                                &format!("C17/keygen-automaton-library/nondeterministic {what}"),
+                                &format!("configuring and synthesising the SAME parsing circuit over a library of {} automata twice gives different {what} (repetition {r})", regexes.len()),
+                                json!({"automata": regexes.len(), "repetition": r, "k": k}),
+                            );
+                            return;
+                        }
+                        _ => rep.count("chip-library.repetitions_equal"),
+                    }
+                }
+            }
+        }
+        let _ = Fq::ZERO;
+    }
+}
+
 fn main() {
     let ctx = Ctx::from_args("C17");
     if ctx.extra.contains_key("child") {
@@ -610,5 +779,6 @@ fn main() {
     params_checks(&mut rep, ctx.tier.pick(7, 10));
 
     rep.min_nontrivial = 30;
+    chip_library::run(&ctx, &mut rep);
     rep.finish();
 }
